@@ -151,6 +151,31 @@ fn exec(line: &str) -> String {
                 hx(a.value())
             }
         }
+        "kahan_rep" => {
+            // kahan_rep <ty> <mode> <x0> <x> <count>: x0 then `count` copies of x; modes addassign | plus | merge7
+            let (x0, x, cnt) = (f(t[3]), f(t[4]), u(t[5]));
+            macro_rules! go { ($ty:ty) => {{
+                let (x0, x) = (x0 as $ty, x as $ty);
+                let mut k = utils::KahanSum::<$ty>::default();
+                k += x0;
+                match t[2] {
+                    "plus" => { for _ in 0..cnt { k = k + x; } }
+                    "merge7" => {
+                        let mut i = 0;
+                        while i < cnt {
+                            let mut part = utils::KahanSum::<$ty>::default();
+                            let m = core::cmp::min(7, cnt - i);
+                            for _ in 0..m { part += x; }
+                            k += part;
+                            i += m;
+                        }
+                    }
+                    _ => { for _ in 0..cnt { k += x; } }
+                }
+                hx(k.value() as f64)
+            }}}
+            if is32 { go!(f32) } else { go!(f64) }
+        }
         "kahan_plus" => {
             // fold with the by-value `+` operator
             let mut k = utils::KahanSum::<f32>::default();
